@@ -26,12 +26,12 @@ RULE = ("states = start models (+ structural successors in thorough); cases = ev
         "was accepted and at least one probe value was compared")
 ASSUMPTIONS = ["probe values: covariate in {ref-1, ref, ref+0.5, ref+2} (continuous) / each category; eta in {0, 0.3, -0.2}; eps in {0, +-0.1}",
                "new effect parameters are set to 0.37, -0.21, ... before probing so that the formula is visible"]
-BOUNDS = {"quick": "2 start models; full extension alphabet", "thorough": "start models + 6 structural successors"}
+BOUNDS = {"quick": "2 covariate-free start models + 6 structural successors; full extension alphabet", "thorough": "same states; identical"}
 
 
 def states(tier):
     st = [("pheno_nocov", ()), ("pheno_nocov_oral", ())]
-    if tier == "thorough":
+    if True:
         for lab in ("periph_add", "elim_mm", "transits_3", "lag_on", "abs_zo", "bio_add"):
             st.append(("pheno_nocov_oral", (lab,)))
     return st
@@ -45,7 +45,7 @@ def cases(tier):
         out.append(("iiv", p, form))
     for t in ("boxcox", "tdist", "john_draper"):
         out.append(("etatrans", t))
-    for em in ("additive", "proportional", "combined", "additive_log", "proportional_log", "combined_log", "power", "iiv_on_ruv", "weighted", "dtbs",
+    for em in ("additive", "proportional", "combined", "additive_direct", "proportional_direct", "combined_direct", "additive_log", "proportional_log", "combined_log", "power", "iiv_on_ruv", "weighted", "dtbs",
                "time_varying"):
         out.append(("error", em))
     out.append(("allometry",))
@@ -298,8 +298,13 @@ def run_case(model, case):
         elif kind == "error":
             em = case[1]
             table = {
-                "additive": (pm.set_additive_error_model, {}), "proportional": (pm.set_proportional_error_model, {}),
-                "combined": (pm.set_combined_error_model, {}),
+                # every setter starts from the model without error model (a setter returns a model that already has
+                # the requested error model unchanged) and also from the model as it is
+                "additive": (lambda m: pm.set_additive_error_model(pm.remove_error_model(m)), {}),
+                "proportional": (lambda m: pm.set_proportional_error_model(pm.remove_error_model(m)), {}),
+                "combined": (lambda m: pm.set_combined_error_model(pm.remove_error_model(m)), {}),
+                "additive_direct": (pm.set_additive_error_model, {}), "proportional_direct": (pm.set_proportional_error_model, {}),
+                "combined_direct": (pm.set_combined_error_model, {}),
                 # the model already has a proportional error model; the setters return such a model unchanged, so the
                 # log-scale variants start from the model without error model
                 "additive_log": (lambda m, **kw: pm.set_additive_error_model(pm.remove_error_model(m), **kw), {"data_trans": "log(Y)"}),
@@ -317,6 +322,8 @@ def run_case(model, case):
             compared += 1
         elif kind == "absorption":
             a = case[1]
+            if a.startswith("transits") and (pm.has_zero_order_absorption(model) or pm.has_seq_zo_fo_absorption(model)):
+                return "n/a:excluded-combination", [], 0  # ZO absorption with transits is documented as excluded (see C08)
             f = {"abs_fo": pm.set_first_order_absorption, "abs_zo": pm.set_zero_order_absorption, "abs_seq": pm.set_seq_zo_fo_absorption,
                  "transits_1": lambda m: pm.set_transit_compartments(m, 1), "transits_3": lambda m: pm.set_transit_compartments(m, 3),
                  "transits_3_nodepot": lambda m: pm.set_transit_compartments(m, 3, keep_depot=False)}[a]
@@ -361,6 +368,7 @@ def check_error_model(m2, em):
 
     for amount in (20.0, 55.0):
         f0, env0 = Y(amount, [0.0] * len(epss))
+        em = em.replace("_direct", "")
         if em in ("additive", "proportional", "combined"):
             for k in range(len(epss)):
                 e = [0.0] * len(epss)
